@@ -403,6 +403,15 @@ func (w *worker) runC05(c *Case, pw, dw string) error {
 			continue
 		}
 		tie := same(g.vals, model, ord)
+		if !tie && !ord && c.p.descentAfterFrag() {
+			// which of several containers is descended into (descentSiblings) depends on Go's map order
+			if id, err := w.unorderedSiblings(c, pw, dw, query{"get", r.String(), "P"}, g.vals); err != nil {
+				return err
+			} else if id != "" {
+				knownFinding(id, "get-denotation:"+r.String()+":flags=s:map-order", "Get does not return what the path denotes (descent after a fragment, map order decides)", c, desc)
+				continue
+			}
+		}
 		if !tie {
 			finding("disagreement", "model-get:"+r.String(), "Go Get and the model of Get differ", c, desc)
 		}
@@ -429,7 +438,9 @@ func (w *worker) runC05(c *Case, pw, dw string) error {
 	// the leading `$` is optional
 	if len(c.p) > 0 {
 		g, gb := goGet(x, simple), goGet(c.p.expr(false), simple)
-		if g.panic != gb.panic || !same(g.vals, gb.vals, ordSimple) {
+		if !ordSimple && c.p.descentAfterFrag() {
+			// two runs may differ (descentSiblings with Go's map order)
+		} else if g.panic != gb.panic || !same(g.vals, gb.vals, ordSimple) {
 			finding("violation", "root-prefix", "Get differs with and without the leading $", c, map[string]any{"rooted": g.String(), "bare": gb.String()})
 		}
 	}
@@ -437,7 +448,7 @@ func (w *worker) runC05(c *Case, pw, dw string) error {
 }
 
 // allFlags are the deviation flags of the model (Cfg); "P" is all of them.
-const allFlags = "encwurlz"
+const allFlags = "esncwurlz"
 
 func without(f byte) string {
 	s := strings.ReplaceAll(allFlags, string(f), "")
@@ -449,6 +460,7 @@ func without(f byte) string {
 
 var flagSlug = map[byte]string{
 	'e': "inner-empty-slice",
+	's': "descent-siblings",
 	'n': "locate-negative-end",
 	'c': "locate-start-clamp",
 	'w': "walk-descent-self",
@@ -469,32 +481,69 @@ func (w *worker) explainC05(c *Case, pw, dw string, r Rep, specVals []string, or
 		}
 		return splitVals(a)
 	}
-	ans, err := w.ask(c, pw, dw, []query{{op, r.String(), "-"}, {op, r.String(), "P"}, {op, r.String(), without('e')}})
+	ans, err := w.ask(c, pw, dw, []query{{op, r.String(), "-"}, {op, r.String(), "P"}, {op, r.String(), without('e')}, {op, r.String(), without('s')}})
 	if err != nil {
 		return "", "", err
 	}
-	fixedOK := same(vals(ans[0]), specVals, ordered && !c.p.endsInDescent())
-	if fixedOK && ans[2] != ans[1] {
-		return "C05-inner-empty-slice", "flags=e", nil
+	listed := ordered && !c.p.endsInDescent()
+	// the denotation up to the leaves a trailing descent loses (see below)
+	denotes := func(got []string) (bool, bool) {
+		if same(got, specVals, listed) {
+			return true, false
+		}
+		if c.p.endsInDescent() && len(c.p) >= 2 {
+			missing, extra := bagMinus(specVals, got), bagMinus(got, specVals)
+			if len(extra) == 0 && len(missing) > 0 && allLeaves(missing) {
+				return true, true
+			}
+		}
+		return false, false
+	}
+	// with every flag off the model must give the denotation (that is the theorem); the flags whose
+	// removal changes the answer name the deviation
+	fixedOK, _ := denotes(vals(ans[0]))
+	if fixedOK {
+		flags := ""
+		if ans[2] != ans[1] {
+			flags += "e"
+		}
+		if ans[3] != ans[1] {
+			flags += "s"
+		}
+		if flags != "" {
+			return "C05-" + flagSlug[flags[0]], "flags=" + flags, nil
+		}
 	}
 	// a path that ends in a bare descent after another fragment: the inner branches hand on containers
 	// only, so a selected leaf is not reported (the denotation has it). Exactly that: the denotation minus
 	// the results consists of non-containers, nothing else differs.
-	if c.p.endsInDescent() && len(c.p) >= 2 {
-		missing := bagMinus(specVals, vals(ans[1]))
-		extra := bagMinus(vals(ans[1]), specVals)
-		if len(extra) == 0 && len(missing) > 0 && allLeaves(missing) {
-			return "C05-trailing-descent-leaf", "leaf-before-trailing-descent", nil
-		}
-		if ans[2] != ans[1] {
-			missing = bagMinus(specVals, vals(ans[2]))
-			extra = bagMinus(vals(ans[2]), specVals)
-			if len(extra) == 0 && allLeaves(missing) {
-				return "C05-inner-empty-slice", "flags=e", nil
-			}
-		}
+	if ok, leaf := denotes(vals(ans[1])); ok && leaf {
+		return "C05-trailing-descent-leaf", "leaf-before-trailing-descent", nil
 	}
 	return "", "", nil
+}
+
+// unorderedSiblings: the model visits the members of an object in sorted order, Go in an order of its
+// own. Where the descentSiblings deviation fires on such members the results depend on that order; the
+// case is recognised by: the path has a descent after another fragment, the data an object with several
+// members that the path iterates, and what Go returned is part of what the model returns without the flag
+// (the model with the flag, in its own member order, may or may not show the loss).
+func (w *worker) unorderedSiblings(c *Case, pw, dw string, q query, got []string) (string, error) {
+	ans, err := w.ask(c, pw, dw, []query{{q.op, q.rep, "P"}, {q.op, q.rep, without('s')}})
+	if err != nil {
+		return "", err
+	}
+	if ans[1] == "panic" {
+		return "", nil
+	}
+	full := modelOut(q.op, ans[1]).vals
+	if q.op == "locate" || q.op == "walk" {
+		return "", nil
+	}
+	if len(bagMinus(got, full)) != 0 {
+		return "", nil
+	}
+	return *prop + "-descent-siblings", nil
 }
 
 func bagMinus(a, b []string) []string {
@@ -647,7 +696,7 @@ func (w *worker) runC11(c *Case, pw, dw string) error {
 			case "get":
 				o = goGet(x, data)
 			case "first":
-				o = goFirst(x, data)
+				o = goFirst(x, data, ord)
 			case "has":
 				o = goHas(x, data)
 			case "locate":
